@@ -1,6 +1,6 @@
 // High level formatting functions.
 
-use std::collections::HashMap;
+use std::collections::BTreeMap;
 use std::io::{self, Write};
 use std::time::{Duration, Instant};
 
@@ -396,7 +396,9 @@ impl FormattingError {
     }
 }
 
-pub(crate) type FormatErrorMap = HashMap<FileName, Vec<FormattingError>>;
+// Ordered by file name: the report is printed in this order, which must not change from one
+// run to the next.
+pub(crate) type FormatErrorMap = BTreeMap<FileName, Vec<FormattingError>>;
 
 #[derive(Default, Debug, PartialEq)]
 pub(crate) struct ReportedErrors {
